@@ -49,15 +49,21 @@ Inductive seqarg := SNone | SOne (s : sym) | SLit (l : list sym) | SList (id : n
                    | SConv (id : nat)    (* an attrs.Converter(...) INSTANCE the caller keeps *)
                    | SOpt (s : sym).     (* converters.optional(s): a fresh wrapper closure *)
 Inductive hookarg := HANone | HANoOp | HASeq (a : seqarg).
-Inductive metaarg := MANone | MALit (ks : list string) | MADict (id : nat).
+(** How the caller hands over a metadata container it keeps: the dict itself, a
+    [types.MappingProxyType] over it, or another live Mapping view of it. *)
+Inductive mkind := MKDict | MKProxy | MKView.
+Inductive metaarg := MANone | MALit (ks : list string) | MADict (id : nat) (k : mkind).
+
+(** [eq=cmp_using(eq=f, require_same_type=...)]: a NEW comparator class per call. *)
+Inductive eqkey := EKNone | EKCmp (f : sym) (same_type : bool).
 
 Record attrib_args := {
   aa_default : bool; aa_v : seqarg; aa_c : seqarg; aa_h : hookarg;
-  aa_kw : bool; aa_init : bool; aa_m : metaarg }.
+  aa_kw : bool; aa_init : bool; aa_m : metaarg; aa_eqk : eqkey }.
 
 (** The dict object a [_CountingAttr] holds in [.metadata]: one nobody else has
     ([{}] default or a literal) or the caller's. *)
-Inductive metaref := MOwn (ks : list string) | MRef (id : nat).
+Inductive metaref := MOwn (ks : list string) | MRef (id : nat) (k : mkind).
 
 Record counting_attr := {
   ca_counter : Z;
@@ -67,7 +73,8 @@ Record counting_attr := {
   ca_cann : option ty;         (* annotation of the converter object's first parameter *)
   ca_hook : on_setattr;
   ca_kw : bool; ca_init : bool;
-  ca_meta : metaref }.
+  ca_meta : metaref;
+  ca_eqk : eqkey }.
 
 (** What an [Attribute] holds as metadata: a copy of the content, or (only in the
     buggy variant) the caller's dict itself. *)
@@ -76,7 +83,8 @@ Inductive metaval := MVCopy (ks : list string) | MVAlias (id : nat).
 Record fattr := {
   fa_name : string; fa_default : bool; fa_vals : list sym; fa_convs : list sym;
   fa_cann : option ty; fa_type : option ty;
-  fa_hook : on_setattr; fa_kw : bool; fa_init : bool; fa_meta : metaval; fa_inh : bool }.
+  fa_hook : on_setattr; fa_kw : bool; fa_init : bool; fa_meta : metaval; fa_inh : bool;
+  fa_eqk : eqkey }.
 
 (** ** Decorator objects *)
 
@@ -242,7 +250,7 @@ Fixpoint set_nth {A : Type} (n : nat) (x : A) (l : list A) : list A :=
 Definition dummy_ca : counting_attr :=
   {| ca_counter := 0; ca_default := false; ca_vals := []; ca_convs := []; ca_cann := None;
      ca_hook := OsNone;
-     ca_kw := false; ca_init := true; ca_meta := MOwn [] |}.
+     ca_kw := false; ca_init := true; ca_meta := MOwn []; ca_eqk := EKNone |}.
 
 (** ** [attrib()] *)
 
@@ -299,7 +307,7 @@ Definition resolve_meta (a : metaarg) : metaref :=
   match a with
   | MANone => MOwn []            (* if metadata is None: metadata = {} *)
   | MALit ks => MOwn ks
-  | MADict id => MRef id         (* the caller's dict object is kept by reference *)
+  | MADict id k => MRef id k     (* the caller's object is kept by reference *)
   end.
 
 Definition attrib (w : world) (a : attrib_args) : world * counting_attr :=
@@ -309,13 +317,14 @@ Definition attrib (w : world) (a : attrib_args) : world * counting_attr :=
       ca_vals := resolve_seq w (aa_v a); ca_convs := resolve_seq w (aa_c a);
       ca_cann := converter_ann w (aa_c a);
       ca_hook := resolve_hook w (aa_h a);
-      ca_kw := aa_kw a; ca_init := aa_init a; ca_meta := resolve_meta (aa_m a) |}).
+      ca_kw := aa_kw a; ca_init := aa_init a; ca_meta := resolve_meta (aa_m a);
+      ca_eqk := aa_eqk a |}).
 
 (** [_CountingAttr.validator(meth)]: a NEW and_ object replaces the old one. *)
 Definition ca_add_validator (c : counting_attr) (s : sym) : counting_attr :=
   {| ca_counter := ca_counter c; ca_default := ca_default c; ca_vals := ca_vals c ++ [s];
      ca_convs := ca_convs c; ca_cann := ca_cann c; ca_hook := ca_hook c; ca_kw := ca_kw c;
-     ca_init := ca_init c; ca_meta := ca_meta c |}.
+     ca_init := ca_init c; ca_meta := ca_meta c; ca_eqk := ca_eqk c |}.
 
 (** ** Executing a class statement *)
 
@@ -359,7 +368,7 @@ Definition exec_body (w : world) (b : class_body) : world * class_obj :=
 Definition meta_copy (w : world) (m : metaref) : metaval :=
   match m with
   | MOwn ks => MVCopy ks
-  | MRef id => MVCopy (nth id (w_metas w) [])
+  | MRef id _ => MVCopy (nth id (w_metas w) [])   (* dict(metadata): whatever kind of mapping *)
   end.
 
 (** [Attribute.from_counting_attr]: a NEW Attribute from the fields of the
@@ -369,18 +378,18 @@ Definition from_counting_attr (mc : world -> metaref -> metaval) (w : world)
   {| fa_name := name; fa_default := ca_default c; fa_vals := ca_vals c; fa_convs := ca_convs c;
      fa_cann := ca_cann c; fa_type := lookup_ty name tys;   (* anns.get(attr_name) *)
      fa_hook := ca_hook c; fa_kw := ca_kw c; fa_init := ca_init c;
-     fa_meta := mc w (ca_meta c); fa_inh := false |}.
+     fa_meta := mc w (ca_meta c); fa_inh := false; fa_eqk := ca_eqk c |}.
 
 Definition evolve_kw (a : fattr) : fattr :=
   {| fa_name := fa_name a; fa_default := fa_default a; fa_vals := fa_vals a;
      fa_convs := fa_convs a; fa_cann := fa_cann a; fa_type := fa_type a;
      fa_hook := fa_hook a; fa_kw := true; fa_init := fa_init a;
-     fa_meta := fa_meta a; fa_inh := fa_inh a |}.
+     fa_meta := fa_meta a; fa_inh := fa_inh a; fa_eqk := fa_eqk a |}.
 (** A base field as collected by [_collect_base_attrs]: [a.evolve(inherited=True)]. *)
 Definition evolve_inh (a : battr) : fattr :=
   {| fa_name := ba_name a; fa_default := ba_default a; fa_vals := ba_vals a;
      fa_convs := ba_convs a; fa_cann := ba_cann a; fa_type := ba_type a; fa_hook := ba_hook a; fa_kw := ba_kw a; fa_init := ba_init a;
-     fa_meta := MVCopy (ba_meta a); fa_inh := true |}.
+     fa_meta := MVCopy (ba_meta a); fa_inh := true; fa_eqk := EKNone |}.
 
 (** Stable insertion sort by counter: [sorted(..., key=lambda e: e[1].counter)]. *)
 Fixpoint insert_by {A : Type} (key : A -> Z) (x : A) (l : list A) : list A :=
@@ -421,7 +430,8 @@ Fixpoint walk_anns (w : world) (cd : list (string * cdval)) (anns : list (string
         | other =>
             let '(w1, c) := attrib w {| aa_default := match other with Some _ => true | None => false end;
                                         aa_v := SNone; aa_c := SNone; aa_h := HANone;
-                                        aa_kw := false; aa_init := true; aa_m := MANone |} in
+                                        aa_kw := false; aa_init := true; aa_m := MANone;
+                                        aa_eqk := EKNone |} in
             let '(w2, l) := walk_anns w1 cd r in (w2, (n, c) :: l)
         end
   end.
@@ -752,7 +762,7 @@ Definition resolve_fattr (a : fattr) : fattr :=
   {| fa_name := fa_name a; fa_default := fa_default a; fa_vals := fa_vals a;
      fa_convs := fa_convs a; fa_cann := fa_cann a; fa_type := option_map resolve_ty (fa_type a);
      fa_hook := fa_hook a; fa_kw := fa_kw a; fa_init := fa_init a;
-     fa_meta := fa_meta a; fa_inh := fa_inh a |}.
+     fa_meta := fa_meta a; fa_inh := fa_inh a; fa_eqk := fa_eqk a |}.
 Definition cop_outcome (c : class_op) (o : cls_outcome) : cls_outcome :=
   match c, o with
   | CResolve, Built r =>
@@ -773,6 +783,8 @@ Inductive op :=
 | ONewConv (s : sym) (takes_self takes_field : bool)   (* keep attrs.Converter(s, ...) *)
 | OListAppend (id : nat) (s : sym)
 | OMetaSet (id : nat) (k : string)
+| OMetaDel (id : nat) (k : string)
+| OListPop (id : nat)                       (* l.pop() *)
 | OCaValidator (id : nat) (s : sym)         (* @shared.validator *)
 | ODictSet (id : nat) (k : string) (v : dval)
 | ODictDel (id : nat) (k : string)
@@ -803,6 +815,9 @@ Definition step (w : world) (o : op) : world :=
       set_convs w (w_convs w ++ [{| cv_sym := s; cv_takes_self := ts; cv_takes_field := tf;
                                     cv_first_param_type := conv_ann s; cv_global_name := None |}])
   | OListAppend id s => set_lists w (set_nth id (nth id (w_lists w) [] ++ [s]) (w_lists w))
+  | OMetaDel id k =>
+      set_metas w (set_nth id (filter (fun x => negb (String.eqb x k)) (nth id (w_metas w) [])) (w_metas w))
+  | OListPop id => set_lists w (set_nth id (removelast (nth id (w_lists w) [])) (w_lists w))
   | OMetaSet id k =>
       let m := nth id (w_metas w) [] in
       if mem_str k m then w else set_metas w (set_nth id (m ++ [k]) (w_metas w))
@@ -856,6 +871,7 @@ Inductive kind := KAbsent | KNone | KOwn | KGen.
 Inductive asg := AFrozen | AFired (l : list sym).
 
 Record ffp := { p_n : string; p_kw : bool; p_d : bool; p_init : bool; p_ty : option ty;
+                p_mix : option bool;   (* eq_key(1) == eq_key(1.0), when the field has an eq key *)
                 p_v : list sym; p_c : list sym; p_m : list string; p_inh : bool }.
 
 Record fp := {
@@ -865,6 +881,7 @@ Record fp := {
   fp_ann : option (list (string * option ty));     (* __init__.__annotations__ per parameter *)
   fp_pre : bool; fp_post : bool; fp_owninit : bool;
   fp_hashes : option bool;
+  fp_mixed : option bool;     (* generated __eq__ on two instances built from 1 and from 1.0 *)
   fp_initconv : option (list (string * option (list sym)));  (* per field after construction:
                                     which converters produced the stored value; None = never set *)
   fp_assign : list (string * asg) }.
@@ -877,6 +894,7 @@ Definition meta_now (w : world) (m : metaval) : list string :=
 
 Definition ffp_of (w : world) (a : fattr) : ffp :=
   {| p_n := fa_name a; p_kw := fa_kw a; p_d := fa_default a; p_init := fa_init a; p_ty := fa_type a;
+     p_mix := match fa_eqk a with EKNone => None | EKCmp _ st => Some (negb st) end;
      p_v := fa_vals a; p_c := fa_convs a; p_m := meta_now w (fa_meta a); p_inh := fa_inh a |}.
 
 Definition fire (a : fattr) (h : hook) : list sym :=
@@ -921,10 +939,25 @@ Definition observe (w : world) (o : cls_outcome) : fprint :=
              fp_hashes :=
                if r_init r then
                  Some (match hk with
-                       | KGen | KOwn => true
+                       | KOwn => true
+                       (* the generated __hash__ hashes eq_key(value): a cmp_using class
+                          defines __eq__ and is therefore unhashable *)
+                       | KGen => negb (existsb (fun a => match fa_eqk a with EKNone => false | _ => true end)
+                                               (r_fields r))
                        | KNone => false
                        | KAbsent => bi_hashable (cf_base cls)
                        end)
+               else None;
+             fp_mixed :=
+               if r_init r && r_eq r then
+                 Some (forallb (fun a => match fa_eqk a with
+                                         | EKCmp _ true =>
+                                             (* same-type requirement: int vs float fails unless a
+                                                converter wrapped both values alike, or the field
+                                                is not an __init__ argument *)
+                                             negb (fa_init a) || match fa_convs a with [] => false | _ => true end
+                                         | _ => true
+                                         end) (r_fields r))
                else None;
              fp_initconv :=
                if r_init r then
@@ -955,4 +988,11 @@ Definition attrs_wrap_buggy := attrs_wrap_gen true meta_copy.
 Definition define_wrap_buggy := define_wrap_gen true.
 Definition make_class_buggy := make_class_gen true.
 Definition meta_alias (w : world) (m : metaref) : metaval :=
-  match m with MOwn ks => MVCopy ks | MRef id => MVAlias id end.
+  match m with MOwn ks => MVCopy ks | MRef id _ => MVAlias id end.
+
+(** The shortcut "a MappingProxyType is read-only already, keep it": only proxies alias. *)
+Definition meta_alias_proxy (w : world) (m : metaref) : metaval :=
+  match m with
+  | MRef id MKProxy => MVAlias id
+  | other => meta_copy w other
+  end.
